@@ -22,6 +22,7 @@ EXPLANATION = (
     "raises and __eq__ returns False; __ne__ is the negation of __eq__; the rich-comparison lambdas pass the matching "
     "operator; Unit comparisons go through 1*unit quantities; compat.eq/zero_or_nan reduce with all(). Does not "
     "decide transitivity/trichotomy as laws, float ties or array semantics.")
+EXPLANATION += ' Also decided (rules added after the second round of seeded changes): the predicate that selects the bare-magnitude hash is `dimensionless` of the base form (what __eq__ uses against numbers); the per-object dimensionality memo read by __eq__/compare is validated against the units; no comparison calls an in-place conversion primitive.'
 
 
 def run(ck, ix, tier):
